@@ -428,4 +428,266 @@ theorem parseSigInfo_at (R : ReaderSpecs) (E : EncSpecs) : SigInfoParseSpec := b
     (by rw [E.sigInfoLen_eq]; exact hl) (loopFuel_at R r _ h)
   simp [parseSigInfo, e]
 
+/-! ### Data: the ordered loop -/
+
+theorem dataIdx_le {typ k : Nat} (hk : dataIdx typ = some k) : 2 ≤ k ∧ k ≤ 6 := by
+  unfold dataIdx at hk
+  repeat' split at hk
+  all_goals (simp at hk <;> omega)
+
+/-- past the offset marker the absent-actions do nothing: the element's handler runs -/
+theorem ordLoop_data (typ l sp k : Nat) (st st' : DataSt) (r r' : Rd) (hk : dataIdx typ = some k)
+    (hh : dataHandle k st l sp r = .ok (st', r')) :
+    ∀ fuel q, 2 ≤ q → q ≤ k → k - q < fuel →
+      ordLoop 7 dataIdx dataHandle dataAbsent typ l sp fuel q st r = .ok ((st', k + 1), r') := by
+  have hk7 := dataIdx_le hk
+  intro fuel
+  induction fuel with
+  | zero => intro q _ _ h; omega
+  | succ f ih =>
+    intro q h2 hq hf
+    have hq7 : ¬ (q > 7) := by omega
+    by_cases hqk : q = k
+    · subst hqk; simp [ordLoop, hk, hh, hq7]
+    · have hq1 : q ≠ 1 := by omega
+      simp only [ordLoop, hq7, hk, hqk, ↓reduceIte, dataAbsent, hq1]
+      exact ih (q + 1) (by omega) (by omega) (by omega)
+
+/-- the first element: the offset marker (slot 1) records the start position -/
+theorem ordLoop_data0 (typ l sp k : Nat) (st st' : DataSt) (r r' : Rd) (hk : dataIdx typ = some k)
+    (hh : dataHandle k { st with sigCoverStart := sp } l sp r = .ok (st', r')) (fuel : Nat) (hf : k - 2 < fuel) :
+    ordLoop 7 dataIdx dataHandle dataAbsent typ l sp (fuel + 2) 0 st r = .ok ((st', k + 1), r') := by
+  have hk7 := dataIdx_le hk
+  have h0 : ¬ (0 = k) := by omega
+  have h1 : ¬ (1 = k) := by omega
+  simp only [ordLoop, hk, h0, h1, ↓reduceIte, dataAbsent, Nat.zero_add, show ¬ (0 > 7) by omega,
+    show ¬ (1 > 7) by omega, show (0 : Nat) ≠ 1 by omega]
+  exact ordLoop_data typ l sp k _ st' r r' hk hh fuel 2 (by omega) (by omega) (by omega)
+
+theorem ordFinish_data (r : Rd) : ∀ (f q : Nat) (st : DataSt), 2 ≤ q → ordFinish dataAbsent r f q st = st := by
+  intro f
+  induction f with
+  | zero => intro q st _; rfl
+  | succ f ih =>
+    intro q st hq
+    have hq1 : q ≠ 1 := by omega
+    simp only [ordFinish, dataAbsent, hq1, ↓reduceIte]
+    exact ih (q + 1) st (by omega)
+
+/-- the SignatureValue TLV as decoded (absent when the signer announced no signature) -/
+def sigPart (est : Nat) (sv : Bytes) : Bytes := if est > 0 then encTL 23 ++ encTL sv.length ++ sv else []
+
+theorem dataValue_split (d : DataIn) (sv : Bytes) : dataValue d sv = dataCovered d ++ sigPart d.est sv := by
+  simp [dataValue, dataCovered, sigPart]
+
+section
+variable (R : ReaderSpecs) (E : EncSpecs)
+include R
+
+theorem d_l5 (fuel : Nat) (r : Rd) (buf : Bytes) (p q : Nat) (nm : Option Name) (mi : Option MetaInfo)
+    (ct : Option Bytes) (si : Option SigInfo) (cov0 : Bytes) (est : Nat) (sv : Bytes)
+    (h : At r buf p) (hb : buf.drop p = sigPart est sv) (hq : 2 ≤ q ∧ q ≤ 6)
+    (hlen : buf.length < 2 ^ 62) (hf : buf.length - p < fuel) :
+    ∃ r' q', 2 ≤ q' ∧ tlvLoop dataBody fuel (⟨⟨nm, mi, ct, si, none⟩, cov0, 0⟩, q) r
+      = .ok ((⟨⟨nm, mi, ct, si, if est > 0 then some sv else none⟩,
+              cov0 ++ (if est > 0 then buf.take (buf.length - (sigPart est sv).length) else []), 0⟩, q'), r') := by
+  by_cases he : est > 0
+  · have hpe : buf.length - (sigPart est sv).length = p := by
+      have h1 := congrArg List.length hb
+      have := h.2.2
+      simp at h1; omega
+    rw [hpe]
+    simp only [sigPart, he, ↓reduceIte] at hb ⊢
+    have hb' : buf.drop p = encTL 23 ++ (encTL sv.length ++ (sv ++ [])) := by rw [hb]; simp
+    obtain ⟨r3, p3, a3, d3, f3, e3⟩ := tlvLoop_field R dataBody fuel (⟨⟨nm, mi, ct, si, none⟩, cov0, 0⟩, q)
+      (⟨⟨nm, mi, ct, si, some sv⟩, cov0 ++ buf.take p, 0⟩, 7)
+      r buf p 23 sv [] h hb' (by omega) hlen hf (by
+        intro r2 p2 a2 _ d2 hle
+        obtain ⟨r3, e3, a3⟩ := wireValue_at R r2 buf p2 sv [] a2 d2
+        have hr := R.range_eq r3 buf _ 0 p a3 (by omega) h.2.2
+        refine ⟨r3, ?_, a3⟩
+        simp only [dataBody]
+        exact ordLoop_data 23 sv.length p 6 _ _ r2 r3 (by simp [dataIdx])
+          (by simp [dataHandle, e3, hr]) 9 q (by omega) (by omega) (by omega))
+    exact ⟨r3, 7, by omega, by rw [e3]; exact tlvLoop_end' R _ _ _ r3 buf p3 a3 d3 (by omega)⟩
+  · simp only [sigPart, he, ↓reduceIte, List.append_nil] at hb ⊢
+    exact ⟨r, q, hq.1, tlvLoop_end' R _ _ _ r buf p h hb (by omega)⟩
+
+include E
+
+theorem d_l4 (fuel : Nat) (r : Rd) (buf : Bytes) (p q : Nat) (nm : Option Name) (mi : Option MetaInfo)
+    (ct : Option Bytes) (si : Option SigInfo) (cov0 : Bytes) (est : Nat) (sv : Bytes)
+    (h : At r buf p)
+    (hb : buf.drop p = optB si (fun s => encTL 22 ++ encTL (sigInfoLen s) ++ encSigInfo s) ++ sigPart est sv)
+    (hv : ∀ s, si = some s → SigInfoValid s) (hq : 2 ≤ q ∧ q ≤ 5)
+    (hlen : buf.length < 2 ^ 62) (hf : buf.length - p < fuel) :
+    ∃ r' q', 2 ≤ q' ∧ tlvLoop dataBody fuel (⟨⟨nm, mi, ct, none, none⟩, cov0, 0⟩, q) r
+      = .ok ((⟨⟨nm, mi, ct, si, if est > 0 then some sv else none⟩,
+              cov0 ++ (if est > 0 then buf.take (buf.length - (sigPart est sv).length) else []), 0⟩, q'), r') := by
+  cases si with
+  | none => exact d_l5 R fuel r buf p q nm mi ct none cov0 est sv h (by simpa using hb) (by omega) hlen hf
+  | some s =>
+    simp only [optB_some, ← E.sigInfoLen_eq, List.append_assoc] at hb
+    obtain ⟨r3, p3, a3, d3, f3, e3⟩ := tlvLoop_field R dataBody fuel (⟨⟨nm, mi, ct, none, none⟩, cov0, 0⟩, q)
+      (⟨⟨nm, mi, ct, some s, none⟩, cov0, 0⟩, 6)
+      r buf p 22 (encSigInfo s) _ h hb (by omega) hlen hf (by
+        intro r2 p2 a2 _ d2 hle
+        obtain ⟨sub, r3, e3, as, a3⟩ := delegate_at R r2 buf p2 _ _ a2 d2
+        have ev := parseSigInfo_at R E sub s as (hv s rfl) (by rw [← E.sigInfoLen_eq]; omega)
+        refine ⟨r3, ?_, a3⟩
+        simp only [dataBody]
+        exact ordLoop_data 22 _ p 5 _ _ r2 r3 (by simp [dataIdx])
+          (by simp [dataHandle, e3, ev]) 9 q (by omega) (by omega) (by omega))
+    rw [e3]
+    exact d_l5 R _ r3 buf p3 6 nm mi ct _ cov0 est sv a3 d3 (by omega) hlen f3
+
+theorem d_l3 (fuel : Nat) (r : Rd) (buf : Bytes) (p q : Nat) (nm : Option Name) (mi : Option MetaInfo)
+    (content : Option (List Bytes)) (si : Option SigInfo) (cov0 : Bytes) (est : Nat) (sv : Bytes)
+    (h : At r buf p)
+    (hb : buf.drop p = optB content (fun c => encTL 21 ++ encTL (contentLen c) ++ c.flatten)
+      ++ (optB si (fun s => encTL 22 ++ encTL (sigInfoLen s) ++ encSigInfo s) ++ sigPart est sv))
+    (hv : ∀ s, si = some s → SigInfoValid s) (hq : 2 ≤ q ∧ q ≤ 4)
+    (hlen : buf.length < 2 ^ 62) (hf : buf.length - p < fuel) :
+    ∃ r' q', 2 ≤ q' ∧ tlvLoop dataBody fuel (⟨⟨nm, mi, none, none, none⟩, cov0, 0⟩, q) r
+      = .ok ((⟨⟨nm, mi, content.map List.flatten, si, if est > 0 then some sv else none⟩,
+              cov0 ++ (if est > 0 then buf.take (buf.length - (sigPart est sv).length) else []), 0⟩, q'), r') := by
+  cases content with
+  | none => exact d_l4 R E fuel r buf p q nm mi none si cov0 est sv h (by simpa using hb) hv (by omega) hlen hf
+  | some c =>
+    simp only [optB_some, contentLen_eq, List.append_assoc] at hb
+    obtain ⟨r3, p3, a3, d3, f3, e3⟩ := tlvLoop_field R dataBody fuel (⟨⟨nm, mi, none, none, none⟩, cov0, 0⟩, q)
+      (⟨⟨nm, mi, some c.flatten, none, none⟩, cov0, 0⟩, 5)
+      r buf p 21 c.flatten _ h hb (by omega) hlen hf (by
+        intro r2 p2 a2 _ d2 hle
+        obtain ⟨r3, e3, a3⟩ := wireValue_at R r2 buf p2 _ _ a2 d2
+        refine ⟨r3, ?_, a3⟩
+        simp only [dataBody]
+        exact ordLoop_data 21 _ p 4 _ _ r2 r3 (by simp [dataIdx])
+          (by simp [dataHandle, -List.length_flatten, e3]) 9 q (by omega) (by omega) (by omega))
+    rw [e3]
+    exact d_l4 R E _ r3 buf p3 5 nm mi _ si cov0 est sv a3 d3 hv (by omega) hlen f3
+
+theorem d_l2 (fuel : Nat) (r : Rd) (buf : Bytes) (p : Nat) (nm : Option Name) (m : MetaInfo)
+    (content : Option (List Bytes)) (si : Option SigInfo) (cov0 : Bytes) (est : Nat) (sv : Bytes)
+    (h : At r buf p)
+    (hb : buf.drop p = encTL 20 ++ (encTL (metaLen m) ++ (encMeta m
+      ++ (optB content (fun c => encTL 21 ++ encTL (contentLen c) ++ c.flatten)
+      ++ (optB si (fun s => encTL 22 ++ encTL (sigInfoLen s) ++ encSigInfo s) ++ sigPart est sv)))))
+    (hm : MetaValid m) (hv : ∀ s, si = some s → SigInfoValid s)
+    (hlen : buf.length < 2 ^ 62) (hf : buf.length - p < fuel) :
+    ∃ r' q', 2 ≤ q' ∧ tlvLoop dataBody fuel (⟨⟨nm, none, none, none, none⟩, cov0, 0⟩, 3) r
+      = .ok ((⟨⟨nm, some m, content.map List.flatten, si, if est > 0 then some sv else none⟩,
+              cov0 ++ (if est > 0 then buf.take (buf.length - (sigPart est sv).length) else []), 0⟩, q'), r') := by
+  rw [← E.metaLen_eq] at hb
+  obtain ⟨r3, p3, a3, d3, f3, e3⟩ := tlvLoop_field R dataBody fuel (⟨⟨nm, none, none, none, none⟩, cov0, 0⟩, 3)
+    (⟨⟨nm, some m, none, none, none⟩, cov0, 0⟩, 4)
+    r buf p 20 (encMeta m) _ h hb (by omega) hlen hf (by
+      intro r2 p2 a2 _ d2 hle
+      obtain ⟨sub, r3, e3, as, a3⟩ := delegate_at R r2 buf p2 _ _ a2 d2
+      have ev := parseMeta_at R E sub m as hm (by rw [← E.metaLen_eq]; omega)
+      refine ⟨r3, ?_, a3⟩
+      simp only [dataBody]
+      exact ordLoop_data 20 _ p 3 _ _ r2 r3 (by simp [dataIdx])
+        (by simp [dataHandle, e3, ev]) 9 3 (by omega) (by omega) (by omega))
+  rw [e3]
+  exact d_l3 R E _ r3 buf p3 4 nm _ content si cov0 est sv a3 d3 hv (by omega) hlen f3
+
+theorem d_l1 (fuel : Nat) (r : Rd) (d : DataIn) (sv : Bytes) (s0 : DataSt)
+    (h : At r (dataValue d sv) 0) (hn : NameValid d.name) (hm : MetaValid d.mi)
+    (hv : ∀ s, d.si = some s → SigInfoValid s)
+    (hlen : (dataValue d sv).length < 2 ^ 62) (hf : (dataValue d sv).length - 0 < fuel) :
+    ∃ r' q', 2 ≤ q' ∧ tlvLoop dataBody fuel ({ s0 with v := {} }, 0) r
+      = .ok ((⟨dataExpect d sv, s0.sigCovered ++ (if d.est > 0 then dataCovered d else []), 0⟩, q'), r') := by
+  have hcov : (dataValue d sv).take ((dataValue d sv).length - (sigPart d.est sv).length) = dataCovered d := by
+    rw [dataValue_split]; simp
+  have hb : (dataValue d sv).drop 0 = encTL 7 ++ (encTL (encNameInner d.name).length ++ (encNameInner d.name
+      ++ (encTL 20 ++ (encTL (metaLen d.mi) ++ (encMeta d.mi
+      ++ (optB d.content (fun c => encTL 21 ++ encTL (contentLen c) ++ c.flatten)
+      ++ (optB d.si (fun s => encTL 22 ++ encTL (sigInfoLen s) ++ encSigInfo s) ++ sigPart d.est sv))))))) := by
+    simp [dataValue, dataHead, encNameField, E.nameLen_eq, sigPart]
+  obtain ⟨r3, p3, a3, d3, f3, e3⟩ := tlvLoop_field R dataBody fuel ({ s0 with v := {} }, 0)
+    (⟨⟨some d.name, none, none, none, none⟩, s0.sigCovered, 0⟩, 3)
+    r _ 0 7 (encNameInner d.name) _ h hb (by omega) hlen hf (by
+      intro r2 p2 a2 _ d2 hle
+      rw [E.nameLen_eq] at hle ⊢
+      obtain ⟨r3, e3, a3, _⟩ := readNameField_at R r2 _ p2 d.name _ a2 d2 (E.nameLen_eq _) hn (by omega)
+      refine ⟨r3, ?_, a3⟩
+      simp only [dataBody]
+      exact ordLoop_data0 7 _ 0 2 _ _ r2 r3 (by simp [dataIdx]) (by simp [dataHandle, e3]) 7 (by omega))
+  rw [e3]
+  obtain ⟨r', q', hq', e'⟩ := d_l2 R E _ r3 _ p3 (some d.name) d.mi d.content d.si s0.sigCovered d.est sv a3 d3 hm hv hlen f3
+  refine ⟨r', q', hq', ?_⟩
+  rw [e', hcov]
+  rfl
+
+theorem parseData_at (r : Rd) (d : DataIn) (sv : Bytes) (s0 : DataSt)
+    (h : At r (dataValue d sv) 0) (hn : NameValid d.name) (hm : MetaValid d.mi)
+    (hv : ∀ s, d.si = some s → SigInfoValid s) (hlen : (dataValue d sv).length < 2 ^ 62) :
+    parseData s0 r = .ok ⟨dataExpect d sv, s0.sigCovered ++ (if d.est > 0 then dataCovered d else []), 0⟩ := by
+  obtain ⟨r', q', hq', e'⟩ := d_l1 R E (loopFuel r) r d sv s0 h hn hm hv hlen (loopFuel_at R r _ h)
+  simp only [parseData, e', Res.bind_ok, Res.pure_eq]
+  rw [ordFinish_data r' _ q' _ hq']
+
+end
+
+/-! ### the Data packet -/
+
+theorem dataValue_length_le (E : EncSpecs) (d : DataIn) (sv : Bytes) (hs : d.est > 0 → sv.length ≤ d.est) :
+    (dataValue d sv).length ≤ dataLen d := by
+  have h7 : tlLen 7 = 1 := by decide
+  have h20 : tlLen 20 = 1 := by decide
+  have h21 : tlLen 21 = 1 := by decide
+  have h22 : tlLen 22 = 1 := by decide
+  have h23 : tlLen 23 = 1 := by decide
+  have hc : (optB d.content (fun c => encTL 21 ++ encTL (contentLen c) ++ c.flatten)).length
+      = optN d.content (fun c => 1 + tlLen (contentLen c) + contentLen c) := by
+    cases d.content with
+    | none => rfl
+    | some c => simp [optN, encTL_length, h21, ← contentLen_eq, -List.length_flatten]; omega
+  have hsi : (optB d.si (fun s => encTL 22 ++ encTL (sigInfoLen s) ++ encSigInfo s)).length
+      = optN d.si (fun s => 1 + tlLen (sigInfoLen s) + sigInfoLen s) := by
+    cases d.si with
+    | none => rfl
+    | some s => simp [optN, encTL_length, h22, E.sigInfoLen_eq]; omega
+  have hsg : (if d.est > 0 then encTL 23 ++ encTL sv.length ++ sv else []).length ≤ sigTLLen 23 d.est := by
+    unfold sigTLLen
+    by_cases he : d.est > 0
+    · have := tlLen_mono (hs he)
+      have := hs he
+      simp [he, encTL_length, h23]; omega
+    · simp [he]
+  simp only [dataValue, dataHead, encNameField, List.length_append, encTL_length, E.nameLen_eq, E.metaLen_eq,
+    hc, hsi, dataLen, nameFieldLen, h7, h20]
+  omega
+
+theorem readData_roundtrip (R : ReaderSpecs) (E : EncSpecs) (d : DataIn) (sign : Bytes → Bytes) (e : Encoded) (r : Rd) :
+    d.Valid → makeData d sign = .ok e → At r e.wire.flatten 0 →
+    ∃ cov, readData r = .ok (dataExpect d e.sigVal, cov) ∧ (d.est > 0 → cov = dataCovered d) ∧ (d.est = 0 → cov = []) := by
+  intro hv hm h
+  obtain ⟨hfl, hs1, _⟩ := E.makeData_flatten d sign e hv hm
+  obtain ⟨hn, hmi, hsi, hdl⟩ := hv
+  have hvl := dataValue_length_le E d e.sigVal (fun he => (hs1 he).2.2)
+  rw [hfl] at h
+  refine ⟨if d.est > 0 then dataCovered d else [], ?_, by intro he; simp [he], by intro he; simp [he]⟩
+  have hb : (encTL 6 ++ encTL (dataValue d e.sigVal).length ++ dataValue d e.sigVal).drop 0
+      = encTL 6 ++ (encTL (dataValue d e.sigVal).length ++ (dataValue d e.sigVal ++ [])) := by simp
+  have hlen : (encTL 6 ++ encTL (dataValue d e.sigVal).length ++ dataValue d e.sigVal).length < 2 ^ 62 := by
+    have : tlLen 6 = 1 := by decide
+    have := tlLen_le (dataValue d e.sigVal).length
+    simp only [List.length_append, encTL_length]; omega
+  obtain ⟨r3, p3, a3, d3, f3, e3⟩ := tlvLoop_field R packetBody (loopFuel r) {}
+    { data := some ⟨dataExpect d e.sigVal, if d.est > 0 then dataCovered d else [], 0⟩,
+      dctx := ⟨dataExpect d e.sigVal, if d.est > 0 then dataCovered d else [], 0⟩ }
+    r _ 0 6 (dataValue d e.sigVal) [] h hb (by omega) hlen (loopFuel_at R r _ h) (by
+      intro r2 p2 a2 _ d2 hle
+      obtain ⟨sub, r3, e3, as, a3⟩ := delegate_at R r2 _ p2 _ _ a2 d2
+      have ev := parseData_at R E sub d e.sigVal {} as hn hmi hsi (by omega)
+      refine ⟨r3, ?_, a3⟩
+      simp [packetBody, e3, ev])
+  have e4 := tlvLoop_end' R packetBody (loopFuel r - 1)
+    { data := some ⟨dataExpect d e.sigVal, if d.est > 0 then dataCovered d else [], 0⟩,
+      dctx := ⟨dataExpect d e.sigVal, if d.est > 0 then dataCovered d else [], 0⟩ } r3 _ p3 a3 d3 (by omega)
+  simp only [readData, parsePacket, e3, e4, Res.bind_ok, Res.pure_eq]
+  simp [dataExpect]
+
 end Ndn.C03
